@@ -18,6 +18,8 @@ import P2P.Model.ChargeTable
 import P2P.Proofs.ChargeTableAll
 import P2P.Proofs.ChargeLinkLemmas
 import P2P.Proofs.ChargeTotal
+import P2P.Proofs.NucLemmas
+import P2P.Proofs.NucTable
 
 namespace P2P.Props.C02
 open P2P P2P.Termini P2P.State P2P.Proofs.Termini
@@ -181,6 +183,76 @@ fails the charge check (C12's success side; floating-point summation error is wh
 theorem integral_total_passes_guard (n : Int) (tol : ℚ) :
     P2P.ChargeGuard.nonInteger (((unit * n : Int) : ℚ) / (unit : ℚ)) tol = false :=
   integral_total_passes_guard_core n tol
+
+
+/-! ### Nucleic acids: −1 per phosphate (Model/NucCharge.lean; kernel tables in Proofs/NucTable.lean)
+
+The end residues of a strand are fractional by design (AMBER: −0.3079 e at the 5' end, −0.6921 e at
+the 3' end), so the statement is about whole strands. A nucleotide's atoms are those of its
+run-time reference — the base definition after `assign_termini`'s `5TERM` / `3TERM` patch, computed
+with the same `applyPatch` as C03's stage model — and its charges those of the regenerated final
+force-field map under the look-up name `Nucleic.set_state` builds (`DA5`, `RU3` …). -/
+
+open P2P.NucCharge P2P.Proofs.Nuc in
+/-- **nucleotide table** (kernel, regenerated data): in each of the six force fields, for DNA and for
+RNA, every parameterised middle nucleotide sums exactly to −1 e, and every parameterised 5' end
+together with every parameterised 3' end sums exactly to −1 e -/
+theorem nucleotide_table :
+    ∀ ff ∈ P2P.Gen.FFCharges.all,
+      kindOK unit (cellOf ff.2) dnaBases = true ∧ kindOK unit (cellOf ff.2) rnaBases = true := by
+  intro ff hff
+  have h := nuc_ok_all
+  rw [List.all_eq_true] at h
+  have := h ff hff
+  rw [ffOK, Bool.and_eq_true] at this
+  exact this
+
+open P2P.NucCharge P2P.Proofs.Nuc in
+/-- **−1 per phosphate, for EVERY strand**: in each of the six force fields, a DNA strand (or an RNA
+strand) with free ends — any length ≥ 2, any base sequence — whose residues are all parameterised
+carries exactly −1 e per phosphate; the 5'-terminal residue has none (`five_end_has_no_phosphate`),
+so that is −(number of residues − 1). -/
+theorem strand_minus_one_per_phosphate :
+    ∀ ff ∈ P2P.Gen.FFCharges.all, ∀ kind ∈ [dnaBases, rnaBases], ∀ s : Strand,
+      s.first ∈ kind → s.last ∈ kind → (∀ b ∈ s.mids, b ∈ kind) →
+      ∀ t, strandTotal (cellOf ff.2) s = some t → t = -unit * (s.phosphates : Int) := by
+  intro ff hff kind hkind s hf hl hm t ht
+  have hk := nucleotide_table ff hff
+  simp only [List.mem_cons, List.mem_nil_iff, or_false] at hkind
+  rcases hkind with rfl | rfl
+  · exact strand_total_core unit _ _ hk.1 s hf hl hm t ht
+  · exact strand_total_core unit _ _ hk.2 s hf hl hm t ht
+
+open P2P.NucCharge P2P.Proofs.Nuc in
+/-- the table is not vacuous: parameterised (DNA, RNA) cells per force field, 12 each at most
+(4 bases × 3 strand positions). CHARMM's 12 DNA cells include the 5'-thymidine that was missing
+before the `fix:` commit 2d5aba7 (PATCHES.xml: `DT5` applied to the non-existent residue `T`). -/
+theorem nucleotide_table_coverage :
+    P2P.Gen.FFCharges.all.map (fun ff => (ff.1, kindCovered (cellOf ff.2) dnaBases, kindCovered (cellOf ff.2) rnaBases)) =
+      [("AMBER", 12, 12), ("CHARMM", 12, 12), ("PARSE", 0, 12), ("PEOEPB", 0, 0), ("SWANSON", 0, 0), ("TYL06", 12, 12)] :=
+  nuc_coverage
+
+open P2P.NucCharge P2P.Proofs.Nuc in
+/-- the 5'-terminal phosphate is removed by design (P, O1P, O2P gone, H5T on O5') for every base -/
+theorem five_end_has_no_phosphate :
+    bases.all (fun b => match runtimeAtoms P2P.Gen.Topology.residues P2P.Gen.Topology.patches b .five with
+      | some atoms => fiveEndShape atoms | none => false) = true :=
+  five_end_shape
+
+open P2P.NucCharge P2P.Proofs.Nuc in
+/-- full strength refuted for a chimeric strand: a DNA 5' end followed by an RNA 3' end sums to
+−0.9998 e under AMBER (the two sugar kinds split the end charge differently: −0.3079/−0.6921 vs
+−0.3081/−0.6919). Known finding; `strand_minus_one_per_phosphate` therefore asks for one kind. -/
+theorem chimeric_strand_refuted :
+    strandTotal (cellOf P2P.Gen.FFCharges.AMBER) ⟨str "DA", [], str "RU"⟩ = some (-9998000) ∧
+      (-9998000 : Int) ≠ -unit * ((⟨str "DA", [], str "RU"⟩ : Strand).phosphates : Int) :=
+  ⟨chimera_amber, by decide⟩
+
+open P2P.NucCharge P2P.Proofs.Nuc in
+/-- non-vacuity: a five-nucleotide DNA strand under CHARMM beginning with thymidine is fully
+parameterised and sums to −4 e -/
+example : strandTotal (cellOf P2P.Gen.FFCharges.CHARMM) ⟨str "DT", [str "DA", str "DG", str "DC"], str "DT"⟩ =
+    some (-4 * unit) := by decide +kernel
 
 /-- non-vacuity: three states of the table under AMBER -/
 example : (["NALA", "ASH", "CLYS"].map str).all (fun n =>
